@@ -2,7 +2,6 @@
 //! validates against the TLA+ specifications in /verif/spec. See /verif/DESIGN.md.
 use kvc::util::Opts;
 mod world;
-mod probe;
 mod hist;
 mod c17;
 
@@ -14,7 +13,6 @@ fn main() {
     }
     let opts = Opts::parse(&args[2..]);
     let rc = match args[1].as_str() {
-        "probe" => probe::run(&opts),
         "hist" => hist::run(&opts),
         "c17" => c17::run(&opts),
         other => {
